@@ -160,6 +160,22 @@ theorem text_append (a b : Out) : Out.text (a ++ b) = Out.text a ++ Out.text b :
   simp [Out.text, List.filterMap_append]
 
 
+/-- `d` and `date` go to `dateChunk` -/
+theorem compile_dateName (B : Build) (n : List Char) (hn : n = cs!"d" ∨ n = cs!"date")
+    (args : List (List Piece)) (p : Params) : compile B (.arg n args p) = dateChunk B args p := by
+  rw [compile_arg]
+  rcases hn with h | h <;> subst h <;> simp
+
+/-- a two-argument date formatter whose format is acceptable is decided by its zone argument -/
+theorem dateChunk_zone (B : Build) (fmt z : List Piece) (p : Params)
+    (hf : B.dateCheck = false ∨ B.dateOk (dateFormatOf fmt) = true) :
+    dateChunk B [fmt, z] p =
+      match tzOf B z with
+      | .ok utc => .leaf (.time (dateFormatOf fmt) utc) p
+      | .error e => .error e := by
+  unfold dateChunk
+  rcases hf with hf | hf <;> simp [dateFormatArg, hf] <;> cases tzOf B z <;> rfl
+
 /-! ### after the repair of F4 every time chunk carries a format chrono's item parser accepts -/
 
 theorem timesOf_text (s : List Char) : timesOf (.text s) = [] := by rw [timesOf]
